@@ -68,6 +68,32 @@ def actOk (o : Box) : Action → Bool
   | .store t => Box.subset o t
   | .split l r => split2Ok o l r && !Box.isEmpty l && !Box.isEmpty r
 
+/-! ### the shape of a log of the loop (used by the driver to MEASURE how many real logs are, event for event, runs of this model) -/
+
+/-- automaton over the events after the leading pushes: state 0 = between iterations (after the second child was pushed or at
+    the start), 1 = a cell is being processed (after `top`), 2 = just popped, 3 = one child pushed -/
+def shapeStep (st : Nat) (e : Ev) : Option Nat :=
+  match st, e with
+  | 0, .top _ => some 1
+  | 2, .top _ => some 1
+  | 1, .ctc _ _ => some 1
+  | 1, .pop _ => some 2
+  | 2, .push _ => some 3
+  | 3, .push _ => some 0
+  | 0, .flush => some 0
+  | 2, .flush => some 2
+  | _, _ => none
+
+/-- the log is: pushes of the root cell(s), then iterations `top, ctc*, pop, (push, push)?` -/
+def isPush : Ev → Bool
+  | .push _ => true
+  | _ => false
+
+def loopShaped (log : List Ev) : Bool :=
+  match (log.dropWhile isPush).foldlM shapeStep 0 with
+  | some st => st == 0 || st == 2
+  | none => false
+
 /-! ### a search resumed from a saved paving (C18): `Solver::start(const CovSolverData&)` -/
 
 /-- the cells a resumed search starts from: the boxes of the previous paving that are not validated (unknown, pending) -/
